@@ -549,6 +549,156 @@ theorem append_eq_crashAppend (st : Store) (ref body : Bytes) :
   · simp [h]
   · simp [h]
 
+/-! ## StreamBlobs on well-formed records -/
+
+theorem readHeader_record (r : Rec) (rest : Bytes) (okRef : Bytes → Bool) (h : recOK okRef r = true)
+    (h3 : 3 ≤ r.ref.length) :
+    readHeader (encodeHeader r.ref r.body.length ++ rest) =
+      some ((encodeHeader r.ref r.body.length).length, r.ref, r.body.length) := by
+  obtain ⟨_, h2, hc, _, h5, h6⟩ := recOK_spec h
+  have hl := hdrLine_length_le r.ref r.body.length h6
+  have e0 : encodeHeader r.ref r.body.length ++ rest = (91 :: hdrLine r.ref r.body.length) ++ 93 :: rest := by
+    simp [encodeHeader_eq]
+  have hno : 93 ∉ (91 :: hdrLine r.ref r.body.length) := by
+    intro hm
+    rcases List.mem_cons.mp hm with hm | hm
+    · omega
+    · exact hdrLine_no_close _ _ hc hm
+  unfold readHeader
+  rw [e0, readSlice_hit 262144 93 _ rest hno (by simp; omega)]
+  have e1 : indexOf 32 ((91 :: hdrLine r.ref r.body.length) ++ [93]) = some (r.ref.length + 1) := by
+    have : (91 :: hdrLine r.ref r.body.length) ++ [93] = (91 :: r.ref) ++ 32 :: (decEnc r.body.length ++ [93]) := by
+      simp [hdrLine]
+    rw [this, indexOf_append_hit 32 (91 :: r.ref) _ (by
+      intro hm
+      rcases List.mem_cons.mp hm with hm | hm
+      · omega
+      · exact h2 hm)]
+    simp
+  simp only [e1]
+  have e2 : (((91 :: hdrLine r.ref r.body.length) ++ [93]).drop (r.ref.length + 1 + 1)).dropLast = decEnc r.body.length := by
+    have : (91 :: hdrLine r.ref r.body.length) ++ [93] = (91 :: (r.ref ++ [32])) ++ (decEnc r.body.length ++ [93]) := by
+      simp [hdrLine]
+    rw [this, List.drop_left' (by simp)]
+    simp
+  have e3 : (((91 :: hdrLine r.ref r.body.length) ++ [93]).take (r.ref.length + 1)).drop 1 = r.ref := by
+    have : (91 :: hdrLine r.ref r.body.length) ++ [93] = (91 :: r.ref) ++ (32 :: (decEnc r.body.length ++ [93])) := by
+      simp [hdrLine]
+    rw [this, List.take_left' (by simp)]
+    simp
+  simp only [e2, parseUint32_decEnc _ h6, e3]
+  have h5' : 5 ≤ (hdrLine r.ref r.body.length).length := by
+    have := decEnc_ne_nil r.body.length
+    have : 0 < (decEnc r.body.length).length := List.length_pos_iff.mpr this
+    simp [hdrLine]; omega
+  simp [encodeHeader_eq]
+  omega
+
+def liveOf : List Rec → List (Bytes × Bytes)
+  | [] => []
+  | r :: rs => if isDeletedRef r.ref then liveOf rs else (r.ref, r.body) :: liveOf rs
+
+/-- record conditions for the streamer: as for the walker, `blob.ParseBytes` instead of `blob.Parse`, and a
+ref of at least 3 bytes (`[b-c 0]` is the shortest header `readHeader` accepts) -/
+def recOKS (okRefB : Bytes → Bool) (r : Rec) : Bool := recOK okRefB r && decide (3 ≤ r.ref.length)
+
+theorem streamPack_record (okRefB : Bytes → Bool) (f : Nat) (r : Rec) (tail : Bytes)
+    (h : recOKS okRefB r = true) :
+    streamPack okRefB (f + 1) (encodeRecord r ++ tail) =
+      (liveOf [r] ++ (streamPack okRefB f tail).1, (streamPack okRefB f tail).2) := by
+  simp only [recOKS, Bool.and_eq_true, decide_eq_true_eq] at h
+  obtain ⟨hok, h3⟩ := h
+  obtain ⟨_, _, _, h4, _, _⟩ := recOK_spec hok
+  have e0 : encodeRecord r ++ tail = encodeHeader r.ref r.body.length ++ (r.body ++ tail) := by
+    simp [encodeRecord]
+  rw [e0]
+  have hne : (encodeHeader r.ref r.body.length ++ (r.body ++ tail)).isEmpty = false := by
+    simp [encodeHeader]
+  simp only [streamPack, hne, readHeader_record r _ okRefB hok h3]
+  have hdrop : (encodeHeader r.ref r.body.length ++ (r.body ++ tail)).drop (encodeHeader r.ref r.body.length).length =
+      r.body ++ tail := List.drop_left
+  simp only [hdrop]
+  have hlen : ¬ (r.body ++ tail).length < r.body.length := by simp
+  have hd2 : (r.body ++ tail).drop r.body.length = tail := List.drop_left
+  have ht2 : (r.body ++ tail).take r.body.length = r.body := List.take_left
+  simp only [hlen, hd2, ht2, Bool.false_eq_true, if_false]
+  by_cases hd : isDeletedRef r.ref = true
+  · simp [hd, liveOf]
+  · have hokb : okRefB r.ref = true := by
+      rcases h4 with h4 | h4
+      · exact absurd h4 hd
+      · exact h4
+    simp [hd, hokb, liveOf]
+
+theorem liveOf_append (a b : List Rec) : liveOf (a ++ b) = liveOf a ++ liveOf b := by
+  induction a with
+  | nil => rfl
+  | cons r rs ih =>
+    simp only [List.cons_append, liveOf]
+    split <;> simp [ih]
+
+theorem streamPack_encodePack (okRefB : Bytes → Bool) (rs : List Rec) (F : Nat) (tail : Bytes)
+    (h : ∀ r ∈ rs, recOKS okRefB r = true) (hF : rs.length ≤ F) :
+    streamPack okRefB F (encodePack rs ++ tail) =
+      (liveOf rs ++ (streamPack okRefB (F - rs.length) tail).1, (streamPack okRefB (F - rs.length) tail).2) := by
+  induction rs generalizing F with
+  | nil => simp [encodePack, liveOf]
+  | cons r rs ih =>
+    obtain ⟨F', rfl⟩ : ∃ F', F = F' + 1 := ⟨F - 1, by simp at hF; omega⟩
+    have ih' := ih F' (fun x hx => h x (by simp [hx])) (by simp at hF; omega)
+    simp only [encodePack, List.append_assoc]
+    rw [streamPack_record okRefB F' r _ (h r (by simp)), ih']
+    have e : F' + 1 - (r :: rs).length = F' - rs.length := by simp
+    have el : liveOf (r :: rs) = liveOf [r] ++ liveOf rs := liveOf_append [r] rs
+    simp [e, el]
+
+/-- a strict prefix of a record at the end of the pack: the streamer presents nothing for it -/
+theorem streamPack_torn (okRefB : Bytes → Bool) (f : Nat) (r : Rec) (k : Nat)
+    (h : recOKS okRefB r = true) (hk : k < (encodeRecord r).length) :
+    (streamPack okRefB f ((encodeRecord r).take k)).1 = [] := by
+  cases f with
+  | zero => rfl
+  | succ f =>
+  simp only [recOKS, Bool.and_eq_true, decide_eq_true_eq] at h
+  obtain ⟨hok, h3⟩ := h
+  obtain ⟨_, _, hc, _, h5, h6⟩ := recOK_spec hok
+  have hl := hdrLine_length_le r.ref r.body.length h6
+  cases k with
+  | zero => simp [streamPack]
+  | succ k =>
+    have e0 : encodeRecord r = 91 :: (hdrLine r.ref r.body.length ++ 93 :: r.body) := by
+      simp [encodeRecord, encodeHeader_eq]
+    by_cases hkl : k ≤ (hdrLine r.ref r.body.length).length
+    · -- torn header: ReadSlice hits EOF
+      have e1 : (encodeRecord r).take (k + 1) = 91 :: (hdrLine r.ref r.body.length).take k := by
+        rw [e0, List.take_succ_cons, List.take_append_of_le_length hkl]
+      rw [e1]
+      have hno : 93 ∉ (91 :: (hdrLine r.ref r.body.length).take k) := by
+        intro hm
+        rcases List.mem_cons.mp hm with hm | hm
+        · omega
+        · exact hdrLine_no_close _ _ hc (List.mem_of_mem_take hm)
+      have hrh : readHeader (91 :: (hdrLine r.ref r.body.length).take k) = none := by
+        unfold readHeader
+        rw [readSlice_eof 262144 93 _ hno (by simp [List.length_take]; omega)]
+      simp [streamPack, hrh]
+    · -- torn body: ReadFull / CopyN hits EOF
+      obtain ⟨j, hj⟩ : ∃ j, k = (hdrLine r.ref r.body.length).length + 1 + j :=
+        ⟨k - ((hdrLine r.ref r.body.length).length + 1), by omega⟩
+      have hjb : j < r.body.length := by
+        rw [e0] at hk
+        simp only [List.length_cons, List.length_append] at hk; omega
+      have e1 : (encodeRecord r).take (k + 1) = encodeHeader r.ref r.body.length ++ r.body.take j := by
+        rw [e0, List.take_succ_cons, List.take_append, hj]
+        have : (hdrLine r.ref r.body.length).length + 1 + j - (hdrLine r.ref r.body.length).length = j + 1 := by omega
+        rw [this, List.take_of_length_le (by omega)]
+        simp [encodeHeader_eq]
+      rw [e1]
+      have hne : (encodeHeader r.ref r.body.length ++ r.body.take j).isEmpty = false := by simp [encodeHeader]
+      simp only [streamPack, hne, readHeader_record r _ okRefB hok h3, List.drop_left]
+      have : min j r.body.length < r.body.length := by omega
+      simp [this]
+
 /-! ## the rebuilt index -/
 
 theorem setEntries_get (idx : Index) (i : Nat) (es : List Entry) (ref : Bytes) (m : Meta)
